@@ -594,6 +594,7 @@ def run_sched_case(ctx, case):
     with contextlib.redirect_stdout(io.StringIO()):
         sch = make_scheduler(case, space)
     running, epoch, new_cfgs, viol = {}, {}, [], None
+    scratch_cfgs = []
     next_id, mi, n_sug, none_seen = 0, 0, 0, False
     metrics = case["metrics"]
     sync = kind == "dehb"
@@ -614,6 +615,13 @@ def run_sched_case(ctx, case):
                         ctx.h("dehb_suggest_assertion_numpy_type", "cases")
                         break
                     raise
+                except KeyError as e:
+                    if sync and e.args == (None,):
+                        # DEHB _de_mutation looks up a parent slot whose trial id is still None (results of the
+                        # parent rung outstanding): a crash, not a suggestion (outside C06; noted in the evidence)
+                        ctx.h("dehb_suggest_keyerror_none_parent", "cases")
+                        break
+                    raise
                 n_sug += 1
                 if sg is None:
                     none_seen = True
@@ -627,6 +635,8 @@ def run_sched_case(ctx, case):
                             viol = bad
                             break
                         new_cfgs.append(sg.config)
+                        if sg.checkpoint_trial_id is None:
+                            scratch_cfgs.append(sg.config)      # started from scratch = asked from the searcher
                         tr = Trial(trial_id=next_id, config=sg.config, creation_time=T0)
                         sch.on_trial_add(tr)
                         running[next_id] = tr
@@ -672,12 +682,12 @@ def run_sched_case(ctx, case):
     init = expected_initial(space, case["pts"])
     size = config_space_size(space)
     if viol is None:
-        k = min(len(new_cfgs), len(init))
-        if kind == "pbt":
-            k = min(k, 3)     # PBT asks its searcher only for the first population_size configurations
-        if [hp_tuple(space, c) for c in new_cfgs[:k]] != [hp_tuple(space, c) for c in init[:k]]:
+        # trials started from scratch (PBT's exploit/explore trials are warm-started from a checkpoint and
+        # do not come from the searcher's queue of initial points)
+        k = min(len(scratch_cfgs), len(init))
+        if [hp_tuple(space, c) for c in scratch_cfgs[:k]] != [hp_tuple(space, c) for c in init[:k]]:
             viol = ("initial_points_not_first", "first suggestions %s, expected %s" % (
-                [hp_tuple(space, c) for c in new_cfgs[:k]], [hp_tuple(space, c) for c in init[:k]]))
+                [hp_tuple(space, c) for c in scratch_cfgs[:k]], [hp_tuple(space, c) for c in init[:k]]))
     if viol is None and kind in NO_REPEAT:
         tl = [hp_tuple(space, c) for c in new_cfgs]
         if len(set(tl)) != len(tl):
@@ -881,8 +891,8 @@ def run(ctx, replay=None):
                           allow_dup=False, seed=0, num_samples=None, ops=[True] * 6))
         for kind in SCHED_KINDS:
             gp = "bayesopt" in kind or "hypertune" in kind
-            cases += [gen_sched_case(rng, kind) for _ in range(ctx.n(4 if gp else 25, 25 if gp else 250))]
-        cases += [gen_mb_case(rng) for _ in range(ctx.n(10, 60))]
+            cases += [gen_sched_case(rng, kind) for _ in range(ctx.n(8 if gp else 30, 30 if gp else 250))]
+        cases += [gen_mb_case(rng) for _ in range(ctx.n(24, 100))]
         cases += [dict(kind="pp", seed=rng.randrange(10 ** 9)) for _ in range(ctx.n(150, 1500))]
     rs_terms, rs_meta, gs_terms, gs_meta, prod_terms, prod_meta, mb_terms, mb_meta, pp_terms, pp_meta = ([] for _ in range(10))
     for case in cases:
